@@ -23,3 +23,6 @@ STRUCTURAL = [_s3]
 FUNCTIONS = FUNCTIONS + [M + '__init__', N + 'assert_valid_input']
 
 VALIDATION = [validate_bs4]
+
+FUNCTIONS = FUNCTIONS + [q for q in CACHE if q not in FUNCTIONS]
+SHARDS = dict(SHARDS)
